@@ -432,6 +432,20 @@ func genC18(r *Run) {
 			}
 			}
 			f := buildFrame(s)
+			// the header fields delivery does not depend on, as senders fill them: type of service, identification,
+			// the Don't-Fragment flag (set by every ordinary UDP socket), time to live, header checksum, IP option octets
+			if r.Rng.Intn(2) == 0 && len(f) >= 20 {
+				f[1] = byte(r.n8())
+				copy(f[4:6], r.Bytes(2))
+				if r.Rng.Intn(3) != 0 {
+					f[6], f[7] = 0x40, 0
+				}
+				f[8] = byte(r.n8())
+				copy(f[10:12], r.Bytes(2))
+				if hl := int(f[0]&0xf) * 4; hl > 20 && hl <= len(f) && r.Rng.Intn(2) == 0 {
+					copy(f[20:hl], r.Bytes(hl-20))
+				}
+			}
 			if r.Rng.Intn(40) == 0 {
 				f = []byte{}
 			}
